@@ -780,81 +780,126 @@ theorem validYmd_neg (y m d : Int) : validYmd (-y) m d = validYmd y m d := by
   unfold validYmd daysInMonth
   rw [isLeap_neg]
 
-/-- whole-second timestamps whose (civil) year is ≥ −9999 survive Display + FromStr -/
-theorem parseTimestamp_displayTimestamp (us : Int) (hsec : us % 1000000 = 0)
-    (hlo : i64Lo ≤ us - thirtyYearsUs)
-    (hr : tsMsInRange (Int.tdiv (us - thirtyYearsUs) 1000) = true)
-    (hy : -9999 ≤ (civilFromDays (Int.tdiv (us - thirtyYearsUs) 1000 / 86400000)).1) :
+theorem dropWhile_isDigit_tail (tail : Bytes) (ht : tail = [] ∨ ∃ t, tail = 32 :: t) :
+    tail.dropWhile isDigit = tail := by
+  rcases ht with h | ⟨t, h⟩ <;> subst h
+  · rfl
+  · have : isDigit 32 = false := by decide
+    simp [List.dropWhile, this]
+
+theorem scanFrac_fmtFracUs (fr : Int) (h0 : 0 ≤ fr) (h1 : fr < 1000000) (tail : Bytes)
+    (ht : tail = [] ∨ ∃ t, tail = 32 :: t) :
+    scanFrac (fmtFracUs fr ++ tail) = some (fr, tail) := by
+  have htd : tail = [] ∨ ∃ b r, tail = b :: r ∧ isDigit b = false := by
+    rcases ht with h | ⟨t, h⟩
+    · left; exact h
+    · right; exact ⟨32, t, h, by decide⟩
+  unfold fmtFracUs
+  by_cases hz : fr = 0
+  · subst hz
+    simp only [if_true, List.nil_append]
+    rcases ht with h | ⟨t, h⟩ <;> subst h <;> rfl
+  · rw [if_neg hz]
+    by_cases hm : fr % 1000 = 0
+    · rw [if_pos hm]
+      have hA := allDigits_padZero 3 _ (allDigits_natDigits (fr / 1000).natAbs)
+      have hP := parseNat_padZero 3 (natDigits (fr / 1000).natAbs)
+      rw [parseNat_natDigits] at hP
+      have hL := length_padZero 3 _ (length_natDigits_le (fr / 1000).natAbs 2 (by omega))
+      generalize padZero 3 (natDigits (fr / 1000).natAbs) = ds at *
+      have ht9 := takeDigits_append 9 ds tail hA (by omega) (Or.inr htd)
+      simp only [List.cons_append, scanFrac, ht9, hP, hL, dropWhile_isDigit_tail tail ht]
+      have hne : ds.isEmpty = false := by cases ds <;> simp at hL ⊢
+      simp only [hne, Bool.false_eq_true, if_false, Option.some.injEq, Prod.mk.injEq, and_true]
+      have : ((fr / 1000).natAbs * 10 ^ (9 - 3) / 1000 : Nat) = fr.natAbs := by
+        have e : (10 : Nat) ^ (9 - 3) = 1000000 := by decide
+        rw [e]; omega
+      rw [this]; omega
+    · rw [if_neg hm]
+      have hA := allDigits_padZero 6 _ (allDigits_natDigits fr.natAbs)
+      have hP := parseNat_padZero 6 (natDigits fr.natAbs)
+      rw [parseNat_natDigits] at hP
+      have hL := length_padZero 6 _ (length_natDigits_le fr.natAbs 5 (by omega))
+      generalize padZero 6 (natDigits fr.natAbs) = ds at *
+      have ht9 := takeDigits_append 9 ds tail hA (by omega) (Or.inr htd)
+      simp only [List.cons_append, scanFrac, ht9, hP, hL, dropWhile_isDigit_tail tail ht]
+      have hne : ds.isEmpty = false := by cases ds <;> simp at hL ⊢
+      simp only [hne, Bool.false_eq_true, if_false, Option.some.injEq, Prod.mk.injEq, and_true]
+      have : (fr.natAbs * 10 ^ (9 - 6) / 1000 : Nat) = fr.natAbs := by
+        have e : (10 : Nat) ^ (9 - 6) = 1000 := by decide
+        rw [e]; omega
+      rw [this]; omega
+
+/-- EVERY printable timestamp (µs precision, AD and BC, signed wide years) survives Display +
+FromStr, except in chrono's first year −262143, whose BC mirror +262143 is out of range. -/
+theorem parseTimestamp_displayTimestamp (us : Int) (hp : tsPrintable us = true)
+    (hy : chronoMinYear < (civilFromDays ((us - thirtyYearsUs) / 86400000000)).1) :
     ∃ t, displayTimestamp us = .ok t ∧ parseTimestamp t = some (.ok us) := by
-  -- seconds since the unix epoch
-  obtain ⟨k, hk⟩ : ∃ k : Int, us - thirtyYearsUs = 1000 * (1000 * k) := by
-    refine ⟨(us - thirtyYearsUs) / 1000000, ?_⟩
-    simp only [thirtyYearsUs]; omega
-  have hms : Int.tdiv (us - thirtyYearsUs) 1000 = 1000 * k := by
-    rw [hk, Int.mul_tdiv_cancel_left _ (by decide)]
-  rw [hms] at hr hy
-  have hday : 1000 * k / 86400000 = k / 86400 := by omega
-  have hmod : 1000 * k % 86400000 = 1000 * (k % 86400) := by omega
-  rw [hday] at hy
-  have hr' : dateInRange (k / 86400) = true := by rw [← hday]; exact hr
+  have hp' := hp
+  simp only [tsPrintable, Bool.and_eq_true, Bool.not_eq_true', decide_eq_false_iff_not] at hp'
+  obtain ⟨_, hr⟩ := hp'
+  generalize hu : us - thirtyYearsUs = u at *
+  have hday : u / 86400000000 = u / 1000000 / 86400 := by omega
+  rw [hday] at hr hy
+  generalize hk : u / 1000000 = k at *
+  have hfr0 : 0 ≤ u % 1000000 := by omega
+  have hfr1 : u % 1000000 < 1000000 := by omega
   have hv := civilFromDays_valid (k / 86400)
-  have hyr := civilFromDays_year_range (k / 86400) hr'
+  have hyr := civilFromDays_year_range (k / 86400) hr
   have hdc := daysFromCivil_civilFromDays (k / 86400)
   have hb := (validYmd_iff _ _ _).mp hv
   have hdim : daysInMonth (civilFromDays (k / 86400)).1 (civilFromDays (k / 86400)).2.1 ≤ 31 := by
     unfold daysInMonth; split <;> (try split) <;> omega
-  have hnp : ¬ (us - thirtyYearsUs < i64Lo) := by omega
   have hsod0 : 0 ≤ k % 86400 := by omega
   have hsod1 : k % 86400 < 86400 := by omega
-  have hsecs : 1000 * (k % 86400) / 1000 = k % 86400 := by omega
-  have hfrac : 1000 * (k % 86400) % 1000 = 0 := by omega
   have hback : ((k / 86400) * 86400 + (k % 86400 / 3600) * 3600 + (k % 86400 / 60 % 60) * 60 + k % 86400 % 60) * 1000000
-      + thirtyYearsUs = us := by
-    have : us = 1000000 * k + thirtyYearsUs := by omega
+      + thirtyYearsUs + u % 1000000 = us := by
+    have : us = u + thirtyYearsUs := by omega
     rw [this]; omega
   unfold displayTimestamp
-  simp only [hnp, if_false, hms, hr, Bool.not_true, Bool.false_eq_true, hday, hmod, hsecs, hfrac]
+  simp only [hp, Bool.not_true, Bool.false_eq_true, if_false, hu, hk]
   generalize hc : civilFromDays (k / 86400) = c at *
   obtain ⟨y, m, d⟩ := c
   simp only at hv hyr hdc hb hdim hy ⊢
+  have c2 : ¬ (k % 86400 % 60 = 60) := by omega
   by_cases hneg : y < 0
   · simp only [hneg, if_true]
     refine ⟨_, rfl, ?_⟩
-    have hfy : padZero 4 (natDigits y.natAbs) = fmtYear (-y) := by
-      unfold fmtYear
-      have : (0 : Int) ≤ -y ∧ -y ≤ 9999 := by omega
-      rw [if_pos this]
-      have : (-y).natAbs = y.natAbs := by omega
-      rw [this]
-    have htext : padZero 4 (natDigits y.natAbs) ++ [45] ++ fmt2 m ++ [45] ++ fmt2 d ++ [32] ++
-        fmtHms (k % 86400) ++ [32, 66, 67] =
-        fmtYmd (-y) m d ++ [32] ++ fmtHms (k % 86400) ++ [32, 66, 67] := by
-      rw [hfy]; rfl
-    rw [htext]
+    rw [show fmtYmd (-y) m d ++ [32] ++ (fmtHms (k % 86400) ++ fmtFracUs (u % 1000000)) ++ [32, 66, 67] =
+        fmtYmd (-y) m d ++ [32] ++ fmtHms (k % 86400) ++ (fmtFracUs (u % 1000000) ++ [32, 66, 67]) by simp]
     unfold parseTimestamp
     rw [scanYmdHms_fmt (-y) m d (k % 86400) (by omega) (by omega) (by omega) (by omega) hsod0 hsod1]
+    simp only
+    rw [scanFrac_fmtFracUs _ hfr0 hfr1 [32, 66, 67] (Or.inr ⟨_, rfl⟩)]
     have hvn : validYmd (-y) m d = true := by rw [validYmd_neg]; exact hv
     have c1 : chronoMinYear ≤ -y ∧ -y ≤ chronoMaxYear ∧ validYmd (-y) m d = true ∧
         k % 86400 / 3600 ≤ 23 ∧ k % 86400 / 60 % 60 ≤ 59 ∧ k % 86400 % 60 ≤ 60 := by
-      simp only [chronoMinYear, chronoMaxYear] at hyr ⊢
+      simp only [chronoMinYear, chronoMaxYear] at hyr hy ⊢
       refine ⟨by omega, by omega, hvn, by omega, by omega, by omega⟩
-    have c2 : ¬ (k % 86400 % 60 = 60) := by omega
+    have hsuf : parseTsSuffix [32, 66, 67] = some (true, none) := by decide
+    simp only [c1, and_self, not_true_eq_false, if_false, c2, hsuf]
     have c3 : chronoMinYear ≤ - -y ∧ validYmd (- -y) m d = true := by
       rw [Int.neg_neg]; exact ⟨hyr.1, hv⟩
-    simp only [c1, not_true_eq_false, if_false, c2, c3, and_self]
-    have hne : ¬ ([32, 66, 67] : Bytes) = [] := by decide
-    simp only [hne, if_false, if_true, Int.neg_neg, timestampOfCivil, hdc, hback]
+    simp only [finishTimestamp, Bool.false_eq_true, false_and, if_false, if_true,
+      Int.neg_neg, timestampOfCivil, hdc, hback]
+    have c4 : ¬ (True ∧ ¬ (chronoMinYear ≤ y ∧ validYmd y m d = true)) := by
+      intro h; exact h.2 ⟨hyr.1, hv⟩
+    rw [if_neg c4]
   · simp only [hneg, if_false]
     refine ⟨_, rfl, ?_⟩
-    have hf0 : fmtFrac 0 = [] := rfl
-    rw [hf0]
+    rw [show fmtYmd y m d ++ [32] ++ (fmtHms (k % 86400) ++ fmtFracUs (u % 1000000)) =
+        fmtYmd y m d ++ [32] ++ fmtHms (k % 86400) ++ (fmtFracUs (u % 1000000) ++ []) by simp]
     unfold parseTimestamp
     rw [scanYmdHms_fmt y m d (k % 86400) (by omega) (by omega) (by omega) (by omega) hsod0 hsod1]
+    simp only
+    rw [scanFrac_fmtFracUs _ hfr0 hfr1 [] (Or.inl rfl)]
     have c1 : chronoMinYear ≤ y ∧ y ≤ chronoMaxYear ∧ validYmd y m d = true ∧
         k % 86400 / 3600 ≤ 23 ∧ k % 86400 / 60 % 60 ≤ 59 ∧ k % 86400 % 60 ≤ 60 :=
       ⟨hyr.1, hyr.2, hv, by omega, by omega, by omega⟩
-    have c2 : ¬ (k % 86400 % 60 = 60) := by omega
-    simp only [c1, and_self, not_true_eq_false, if_false, if_true, c2, timestampOfCivil, hdc, hback]
+    have hsuf : parseTsSuffix [] = some (false, none) := by decide
+    simp only [c1, and_self, not_true_eq_false, if_false, c2, hsuf]
+    simp only [finishTimestamp, Bool.false_eq_true, false_and, if_false, if_true,
+      timestampOfCivil, hdc, hback]
 
 end V19
 end RlModel
